@@ -7,6 +7,7 @@ ALL = [f'C{i:02d}' for i in range(1, 21)]
 PENDING_REASON = 'no check registered yet: model, theorems and correspondence for this property are still being built (DESIGN.md §6 gives the plan); not claimed until they run clean'
 
 def main():
+    import ties
     checks, na = [], []
     for pid in ALL:
         f = HERE / 'props' / f'{pid.lower()}.py'
@@ -22,7 +23,7 @@ def main():
             'engine': 'lean4-proof+correspondence',
             'level_claimed': {'category': 'proof', 'text': m.LEVEL_TEXT, 'design_ref': f'DESIGN.md §6 {pid}'},
             'level_note': m.LEVEL_NOTE,
-            'technique': m.TECHNIQUE,
+            'technique': m.TECHNIQUE + (('; translator tie re-checked every run: ' + ties.SPECS[pid]['covers'] + ' regenerated from the source text by harness/pyfn2lean.py and proved equal to the model (lean/IblVerif/Tie/' + pid + '.lean)') if pid in ties.SPECS else ''),
         })
     man = {
         'version': 1,
@@ -32,7 +33,7 @@ def main():
                   'source_commits': [], 'add_only': True},
         'engines': [{'name': 'lean4-proof+correspondence', 'path': 'lean/ + harness/',
                      'serves_properties': [c['property_id'] for c in checks],
-                     'kind_free_text': 'Lean 4 theorems about hand-written executable models (lake build + #print axioms audit), tied to /repo by a differential correspondence run (real code in-process vs lean --run driver) and by constants re-extracted from the source on every run; failing-input search by direct oracles on a break'}],
+                     'kind_free_text': 'Lean 4 theorems about hand-written executable models (lake build + #print axioms audit), tied to /repo by a differential correspondence run (real code in-process vs lean --run driver) by constants re-extracted from the source on every run and, for the integer / scheduling logic of C03 C06 C11 C12 C13 C17 C18, by Lean definitions re-translated from the source text on every run with theorems translated = model (DESIGN §12); failing-input search by direct oracles on a break'}],
         'checks': checks,
         'not_applicable': na,
         'notes': 'fix: commits in /repo and known findings are listed in known_findings.txt; see DESIGN.md §7.',
